@@ -16,6 +16,9 @@ pub struct Case06 {
     /// 0 ignore, 1 stdout, 2 stderr, 3 panic
     pub policy: u8,
     pub pipeline: u8,
+    /// also pass --only-objects-and-arrays (top-level scalars are dropped after parsing)
+    #[serde(default)]
+    pub only_objects: bool,
 }
 
 pub const POLICIES: &[&str] = &["ignore", "stdout", "stderr", "panic"];
@@ -96,14 +99,23 @@ impl Check for C06Noise {
             6 => (arb_gval(CharSet::Bmp, 3, 12), arb_spelling()).prop_map(|(v, sp)| serialise(&v, &sp)),
             2 => prop::sample::select(vec!["1", "true", "null", "\"a\"", "[]", "{}", "-0.5", "[1,2]", "{\"a\":1}"]).prop_map(|s| s.to_string()),
         ];
-        let gap = prop_oneof![
-            3 => Just(Vec::<BytesS>::new()),
-            2 => vec(vec(garbage_byte(), 1..4).prop_map(BytesS), 1..4),
+        // a token is 1..3 garbage bytes, or a pair of strings that both die on a bad escape
+        // (`"ab\q"cd\q`: the quote that would close the first opens the second, so the region
+        // ends outside any string)
+        let token = prop_oneof![
+            12 => vec(garbage_byte(), 1..4).prop_map(BytesS),
+            1 => ("[a-z ]{0,6}", prop::sample::select(vec!["\\q", "\\x", "\\uZ", "\\u12", "\\ "]), "[a-z]{0,6}", prop::sample::select(vec!["\\q", "\\x", "\\uZ"])).prop_map(|(a, e1, b, e2)| BytesS(format!("\"{}{}\"{}{}", a, e1, b, e2).into_bytes())),
         ];
-        (vec(val, 0..12), vec(gap, 13), 0u8..4, 0u8..N_PIPELINES)
-            .prop_map(|(values, mut noise, policy, pipeline)| {
+        let gap = prop_oneof![
+            30 => Just(Vec::<BytesS>::new()),
+            20 => vec(token.clone(), 1..4),
+            // a long malformed region (more reports in a row than any plausible cap)
+            1 => vec(token, 35..120),
+        ];
+        (vec(val, 0..12), vec(gap, 13), 0u8..4, 0u8..N_PIPELINES, prop::bool::weighted(0.2))
+            .prop_map(|(values, mut noise, policy, pipeline, only_objects)| {
                 noise.truncate(values.len() + 1);
-                Case06 { values, noise, policy, pipeline }
+                Case06 { values, noise, policy, pipeline, only_objects }
             })
             // one case in six ends with a value that is cut off by the end of the input (an open
             // array, object, string or literal): bytes that are not part of any value either
@@ -124,6 +136,9 @@ impl Check for C06Noise {
             return CaseResult::Discard("--unique over values where jawk's = and hash disagree (outside C10's domain)".into());
         }
         let mut args = pipeline_args(case.pipeline);
+        if case.only_objects {
+            args.push("--only-objects-and-arrays".into());
+        }
         let base = run(&args, &clean); // default policy = ignore, no noise: the reference
         if !base.res.is_ok() {
             return CaseResult::Discard(format!("pipeline fails on the clean stream: {}", base.res.short()));
@@ -140,6 +155,9 @@ impl Check for C06Noise {
         let info = Info::new(case.values.len() >= 2 && inner)
             .class(["policy:ignore", "policy:stdout", "policy:stderr", "policy:panic"][case.policy as usize])
             .class(["pipe:none", "pipe:select", "pipe:filter", "pipe:select+index", "pipe:unique", "pipe:sort", "pipe:group", "pipe:split"][case.pipeline as usize])
+            .class_if(case.only_objects, "only_objects_and_arrays")
+            .class_if(case.noise.iter().any(|g| g.len() >= 33), "more_than_32_reports_in_a_row")
+            .class_if(case.noise.iter().flatten().any(|t| t.0.first() == Some(&b'"')), "broken_string_pair")
             .class_if(noisy_gaps.first() == Some(&0), "noise_at_start")
             .class_if(noisy_gaps.last() == Some(&case.values.len()), "noise_at_end")
             .class_if(case.noise.iter().flatten().any(|t| t.0.iter().any(|b| *b >= 0x80)), "non_utf8_noise")
@@ -148,6 +166,20 @@ impl Check for C06Noise {
         let fail = |m: String| CaseResult::Fail(format!("{} [input {}]", m, esc_trunc(&noisy, 300)));
         if n.res.is_panic() {
             return fail(format!("panic: {}", n.res.short()));
+        }
+        // every malformed region is reported: taking one region away takes at least one
+        // `error:` line away (policies stdout / stderr)
+        if matches!(case.policy, 1 | 2) && !noisy_gaps.is_empty() && n.res.is_ok() {
+            let h = noisy.iter().fold(0u64, |a, b| a.wrapping_mul(31).wrapping_add(*b as u64));
+            let g = noisy_gaps[(h % noisy_gaps.len() as u64) as usize];
+            let mut fewer = case.noise.clone();
+            fewer[g].clear();
+            let (_, noisy2) = build_inputs(&case.values, &fewer);
+            let n2 = run(&args, &noisy2);
+            let count = |o: &Outcome| lines(if case.policy == 1 { &o.stdout } else { &o.stderr }).iter().filter(|l| l.starts_with(b"error:")).count();
+            if n2.res.is_ok() && count(&n) <= count(&n2) {
+                return fail(format!("the malformed region in gap {} is not reported: {} error lines with it, {} without it", g, count(&n), count(&n2)));
+            }
         }
         match case.policy {
             0 => {
@@ -168,7 +200,7 @@ impl Check for C06Noise {
                 if nerr < noisy_gaps.len() {
                     return fail(format!("stdout policy: {} error lines for {} malformed regions", nerr, noisy_gaps.len()));
                 }
-                if one_row_per_value(case.pipeline) {
+                if one_row_per_value(case.pipeline) && !case.only_objects {
                     let mut slot = 0usize;
                     let mut per = vec![0usize; case.values.len() + 1];
                     for l in &all {
@@ -213,7 +245,11 @@ impl Check for C06Noise {
                     if streaming(case.pipeline) {
                         let first = noisy_gaps[0];
                         let (prefix, _) = build_inputs(&case.values[..first], &[]);
-                        let p = run(&pipeline_args(case.pipeline), &prefix);
+                        let mut pa = pipeline_args(case.pipeline);
+                        if case.only_objects {
+                            pa.push("--only-objects-and-arrays".into());
+                        }
+                        let p = run(&pa, &prefix);
                         if n.stdout != p.stdout {
                             return fail(format!("panic policy: stdout {} is not exactly the rows of the {} values before the first malformed byte ({})", esc_trunc(&n.stdout, 300), first, esc_trunc(&p.stdout, 300)));
                         }
@@ -226,7 +262,7 @@ impl Check for C06Noise {
 }
 
 pub fn run_all(ctx: &mut Ctx) {
-    ctx.rule = "0..12 generated values (independent spellings) with 0..3 whitespace-delimited garbage tokens at every gap, each token 1..3 bytes drawn from bytes that cannot start a JSON value (structural bytes, letters, C0 controls, 0x80-0xFF) x 4 --on-error policies x 8 pipelines (none, select, filter, select+&index, unique, sort, group, split); oracle = differential against the noise-free run of the same pipeline + policy-specific placement of error: lines; non-trivial = >= 2 values and a noisy gap strictly between two values".into();
+    ctx.rule = "0..12 generated values (independent spellings) with 0..3 whitespace-delimited garbage tokens at every gap, each token 1..3 bytes drawn from bytes that cannot start a JSON value (structural bytes, letters, C0 controls, 0x80-0xFF) or a pair of strings that die on a bad escape, one gap in fifty a long region of 35..120 tokens, optionally --only-objects-and-arrays, x 4 --on-error policies x 8 pipelines (none, select, filter, select+&index, unique, sort, group, split); oracle = differential against the noise-free run of the same pipeline + policy-specific placement of error: lines + removing one malformed region must remove at least one error: line; non-trivial = >= 2 values and a noisy gap strictly between two values".into();
     ctx.assumptions = vec!["every error report is one line starting with `error:` (what lib.rs writes); rows of these pipelines never start with `error:` because they are JSON texts".into()];
     C06Noise.run(ctx);
 }
